@@ -810,6 +810,117 @@ def run_rs(ctx, dist):
         std_e3(ctx, "rs", "P_Reservoir", "rs_e3", drive_args=["--scenarios", "300", "--max-n", "100000"], sample='"gap"')
 
 
+# T-Digest
+def td_consts():
+    return json.load(open(os.path.join(vlib.SPEC, "TDigestAsBuilt.json")))
+
+
+def td_e1(ctx, mech, fn):
+    asb = td_consts()
+    for (scale, dn, dd, mb, vals, weights, maxops) in mech:
+        c = {"MaxBacklog": mb, "Values": "{" + ",".join(map(str, vals)) + "}", "Weights": "{" + ",".join(map(str, weights)) + "}", "MaxOps": maxops,
+             "Scale": '"%s"' % scale, "DeltaN": dn, "DeltaD": dd, "ClearResetsN": asb["ClearResetsN"]}
+        ctx.e1.append(vlib.model_check("MC_TDigest", c, ["Mass", "MinMax", "EmptyIff", "Sorted", "BacklogBound", "Between", "SizeK0", "ClearFresh"], ctx.sub("e1")))
+    for (maxc, maxcount, maxval, qd) in fn:
+        c = {"RightTailFixed": asb["RightTailFixed"], "MaxC": maxc, "MaxCount": maxcount, "MaxVal": maxval, "QD": qd}
+        ctx.e1.append(vlib.model_check("MC_TDigestFn", c, ["QMono", "QRange", "QEnds", "CMono", "CRange", "Inverse", "InverseWeak"], ctx.sub("e1")))
+
+
+def td_e2(ctx, vals, weights16, maxops, configs):
+    asb = td_consts()
+    for (scale, dn, dd, mb) in configs:
+        extra = json.dumps({"scale": scale, "dn": dn, "dd": dd, "mb": mb, "qd": 8, "xlo2": -2, "xn": 2 * max(vals) + 5})
+        w = ctx.sub("td_%s_%d_%d_%d" % (scale, dn, dd, mb))
+        c = {"Values": "{" + ",".join(map(str, vals)) + "}", "Weights": "{" + ",".join(map(str, weights16)) + "}", "MaxOps": maxops, "EMIT": "TRUE"}
+        gen, st = vlib.generate("Gen_TDigest", c, w, "gen.out")
+        pf, h, mm = [os.path.join(w, x) for x in ("p.ndjson", "hist.ndjson", "m.ndjson")]
+        stats = vlib.vh(["replay", "td", "--gen", gen, "--out", pf, "--hist", h, "--mout", mm, "--mall", "--reps", "1", "--max-alt", "0",
+                         "--cfg-extra", extra, "--seed", str(ctx.seed)], w)
+        os.remove(gen)
+        ctx.e2_transitions += stats["transitions"]
+        ctx.executed += stats["executed"]
+        ctx.add_tags(stats.get("tags"), stats.get("tagged_distinct"))
+        ctx.extra.setdefault("state_graphs", []).append({"structure": "TDigest<%s>" % scale, "delta": "%d/%d" % (dn, dd), "max_backlog": mb,
+                                                         "histories_as_states": st["distinct"], "materialised_as_real_objects": stats["states"]})
+        handle_hang(ctx, stats, pf, "td", "P_TDigest", hist=h)
+        n, rej = vlib.adjudicate("P_TDigest", pf, w)
+        ctx.judged += n
+        for r in rej:
+            pass
+        add_rejects(ctx, rej, pf, "td", "P_TDigest", hist=h)
+        for r in ctx.rejects:
+            if r["records"] == pf and r.get("hist") == h:
+                r["cfg_extra"] = json.loads(extra)
+        sample_records(ctx, pf, 1, '"fused"')
+        nm, drift = vlib.mvalidate("Trace_TDigest", {"ClearResetsN": asb["ClearResetsN"]}, mm, w)
+        ctx.mvalidated += nm
+        ctx.drift += len(drift)
+        if drift:
+            ctx.drift_notes.append({"tdigest_layout_changes_not_legal_for_mechanism_spec": drift[:5], "config": extra})
+
+
+def td_e3(ctx, scenarios):
+    asb = td_consts()
+    std_e3(ctx, "td", "P_TDigest", "td_e3", drive_args=["--scenarios", str(scenarios)], sample='"merged"',
+           tspec="Trace_TDigest", tconsts={"ClearResetsN": asb["ClearResetsN"]})
+
+
+def td_rank(ctx, digests, max_n):
+    w = ctx.sub("td_rank")
+    p = os.path.join(w, "rank.ndjson")
+    stats = vlib.vh(["rank", "td", "--out", p, "--seed", str(ctx.seed), "--digests", str(digests), "--max-n", str(max_n)], w)
+    ctx.e3_calls += stats["digests"]
+    ctx.executed += stats["digests"]
+    n, rej = vlib.adjudicate("P_TDigestRank", p, w, parallel=8)
+    ctx.judged += n
+    ctx.tagged += n
+    for tid, clause in rej:
+        ctx.rejects.append({"tid": tid, "clause": clause, "records": p, "s": "tdrank", "pspec": "P_TDigestRank", "pconsts": {}, "hist": None,
+                            "scenarios": None, "kind": "tdrank", "extra": {"seed": ctx.seed, "digests": digests, "max_n": max_n}})
+    sample_records(ctx, p, 1)
+
+
+def tdrank_replay(ctx, rp):
+    ctx2 = Ctx(ctx.pid, ctx.tier, rp["extra"]["seed"], ctx.sub("replay_run"))
+    td_rank(ctx2, rp["extra"]["digests"], rp["extra"]["max_n"])
+    mine = [r for r in ctx2.rejects if ctx.pid in vlib.clause_props(r["clause"])]
+    for r in mine[:5]:
+        log("replay: digest %s: %s" % (r["tid"], r["clause"]))
+    if mine:
+        print("VIOLATION property=%s replay=%s" % (ctx.pid, rp.get("_path", "")), flush=True)
+        return 1
+    log("replay: rank accuracy held on the regenerated digests")
+    return 0
+
+
+SPECIAL_REPLAY["tdrank"] = tdrank_replay
+
+TD_CONFIGS_Q = [("K0", 4, 1, 0), ("K0", 3, 2, 1), ("K1", 4, 1, 1), ("K2", 5, 2, 0), ("K3", 10, 1, 3), ("K1", 11, 10, 0)]
+TD_CONFIGS_T = TD_CONFIGS_Q + [("K0", 2, 1, 3), ("K0", 4, 1, 1), ("K2", 4, 1, 1), ("K3", 3, 2, 0), ("K2", 100, 1, 3), ("K3", 11, 10, 1)]
+
+
+def run_td(ctx, rank=False):
+    if ctx.quick:
+        td_e1(ctx, [("any", 2, 1, 1, [0, 1, 2, 3], [0, 1, 2], 5), ("K0", 2, 1, 1, [0, 1, 2, 3], [0, 1, 2], 5), ("K0", 3, 2, 0, [0, 1, 3], [1, 2], 5)],
+              [(3, 2, 3, 8)])
+        td_e2(ctx, [0, 3], [0, 16, 64], 4, TD_CONFIGS_Q)
+        td_e3(ctx, 40)
+        if rank:
+            td_rank(ctx, 24, 20000)
+    else:
+        td_e1(ctx, [("any", 2, 1, 1, [0, 1, 2, 3], [0, 1, 2], 6), ("K0", 2, 1, 1, [0, 1, 2, 3], [0, 1, 2], 6), ("K0", 3, 2, 0, [0, 1, 2, 3], [1, 2], 6),
+                    ("K0", 4, 1, 3, [0, 1, 2, 3], [0, 1, 2], 6), ("any", 2, 1, 3, [0, 1, 2], [1, 4], 6)],
+              [(4, 3, 4, 8)])
+        td_e2(ctx, [0, 1, 3], [0, 4, 16, 32], 4, TD_CONFIGS_T)
+        td_e3(ctx, 600)
+        if rank:
+            td_rank(ctx, 400, 50000)
+
+
+def run_C04(ctx):
+    run_td(ctx, rank=True)
+
+
 def handle_hang(ctx, stats, records, tag, pspec, hist=None):
     for h in stats.get("hang", []):
         ctx.rejects.append({"tid": h.get("tid", 0), "clause": PROPS[ctx.pid].get("hang_clause", ctx.pid + ".total: a call did not return (hang)"),
@@ -876,6 +987,20 @@ PROPS = {
                     "every plain-phase outcome j and every one of the 4k+1 equiprobable cells of the unit draw at the phase switch is executed; gap phase: scripted unit values on a dyadic grid, the next accepted index must be base + g with GapOK; "
                     "non-trivial = tagged transitions",
             "assumptions": ["uniformity of the RNG (rand's gen_range maps a uniform lattice of words to equiprobable outcomes; self-tested)", "the quantitative bias of gap sampling for n >> 4k is not decided (statement: 'of relative order 1/k')"]},
+    "C16": {"run": run_td, "level": "model_checking",
+            "rule": "E1: all histories of weighted inserts/reads/clears up to depth 5-6 with ARBITRARY fuse decisions (every scale function at once) and with the pinned K0 rule; "
+                    "E2: the whole tree of histories up to depth 4 over integer values and dyadic weights executed on K0..K3 x delta x backlog, observed on clones; every layout change validated by TLC "
+                    "against the mechanism (legal greedy partition of the stably sorted list, K0 rule); E3: longer random scenarios; non-trivial = a call that merged / fused / had zero weight",
+            "assumptions": ["TLC and the TLA+ P-spec P_TDigest judge every executed call", "inputs are integers and power-of-two weights so that the expected aggregates are exact in f64 and in TLC integers"]},
+    "C15": {"run": run_td, "level": "exploration",
+            "rule": "shape of quantile/cdf proved on the exact-rational transcription (MC_TDigestFn) for every layout with <= 3-4 centroids, counts <= 2-3, means on 0..3-4; "
+                    "on the code: every history of the depth-4 tree on K0..K3 and random scenarios, 9-point q-grid, half-integer x-grid, cdf(quantile(q)), repeated reads; non-trivial = merged / fused calls",
+            "assumptions": ["comparisons in 2^-16 fixed point with a tolerance of 3 units", "cdf(quantile(q)) is compared within the largest centroid share (read through the hook)"]},
+    "C04": {"run": run_C04, "level": "exploration",
+            "rule": "centroid bound on every executed call with unit weights; rank error of quantile (17-point grid) and cdf (12 sampled points) against the inserted values on long streams: "
+                    "K0..K3 x delta in {1.1,2,10,100,1000} x backlog in {0,1,10,1000} x n to 5*10^4 x {sorted, reverse, ~normal, heavy tail, 3-valued, saw-tooth} x read cadence; "
+                    "bound 3 W + 2/n with W over-approximated in integers; every digest counts as non-trivial",
+            "assumptions": ["only the loosest multiple (3 W) is checked; the 'one W for smooth densities' clause and n > 5*10^4 are not covered", "K1..K3 layouts are not predicted (asin/ln/exp)"]},
     "C12": {"run": lambda ctx: (run_ck(ctx), run_C13(ctx)), "level": "model_checking", "rule": CK_RULE + "; quotient filter as C13", "assumptions": CK_ASSUME},
     "C13": {"run": run_C13, "level": "model_checking",
             "rule": "E1: every reachable state of the quotient-filter M-spec for the listed (q,r); E2: every emitted transition executed "
